@@ -469,6 +469,12 @@ def _after_required_raise(node, check_fn):
     if not tests:
         return False
     guard = tests[-1]
+    # a read inside the failing branch itself (e.g. in the error message)
+    # happens exactly when an attribute is missing
+    par = getattr(raises[0].ast, "_parent", None)
+    if isinstance(par, ast.If) and any(node is x for st in par.body
+                                       for x in ast.walk(st)):
+        return False
     return cfg.dominates(guard.id, target.id) and guard.id != target.id
 
 
@@ -794,6 +800,70 @@ def r5_check_raises_model_errors(ctx):
               "order with parameter_keys")
 
 
+def r6_ancillary_keys_agree(ctx):
+    """compute_ancillaries returns exactly the keys get_anc_parm_keys
+    announces: the common table and, for models with their own recipe, the
+    declared parameter_anc_keys - nothing a model's recipe returns on top
+    (an undeclared value named like a fit parameter would silently seed
+    it)."""
+    core = ctx.repo.mod("model.core")
+    fn = core.func("NaniteFitModel.compute_ancillaries")
+    ctx.analysed(fn)
+    rets = [r for r in walk_no_nested(fn, False) if isinstance(r, ast.Return)]
+    if len(rets) != 1 or not isinstance(rets[0].value, ast.Name):
+        raise Undecided("compute_ancillaries does not return a named dict")
+    D = rets[0].value.id
+    n = 0
+    for node in walk_no_nested(fn, False):
+        if isinstance(node, ast.Call) and isinstance(
+                node.func, ast.Attribute) and isinstance(
+                node.func.value, ast.Name) and node.func.value.id == D \
+                and node.func.attr in ("update", "setdefault", "pop",
+                                       "__setitem__", "clear"):
+            n += 1
+            ctx.fail(node, f"{D}.{node.func.attr}(...)",
+                     "compute_ancillaries copies whatever the model's "
+                     "recipe returns instead of the declared "
+                     "parameter_anc_keys: undeclared keys appear among the "
+                     "ancillaries (without name and unit) and one named "
+                     "like a fit parameter seeds that parameter")
+        if isinstance(node, ast.Assign):
+            for t in node.targets:
+                if not (isinstance(t, ast.Subscript) and isinstance(
+                        t.value, ast.Name) and t.value.id == D):
+                    continue
+                n += 1
+                k = t.slice
+                lp = getattr(node, "_parent", None)
+                while lp is not None and not isinstance(lp, ast.For):
+                    lp = getattr(lp, "_parent", None)
+                src = None
+                if lp is not None and isinstance(k, ast.Name) and \
+                        isinstance(lp.target, ast.Name) and \
+                        lp.target.id == k.id:
+                    src = norm(lp.iter)
+                ok_common = src in ("ANCILLARY_COMMON",
+                                    "ANCILLARY_COMMON.keys()",
+                                    "list(ANCILLARY_COMMON)",
+                                    "list(ANCILLARY_COMMON.keys())")
+                ok_own = src == "self.parameter_anc_keys" and any(
+                    c.pol and c.text == "self.has_module_ancillaries"
+                    for c in conditions_at(node))
+                ctx.check(ok_common or ok_own, node,
+                          f"ancillary key from {src}",
+                          f"compute_ancillaries stores key "
+                          f"`{norm(k)[:30]}` taken from `{src}`: the result "
+                          "no longer has exactly the common keys plus the "
+                          "declared parameter_anc_keys")
+    ctx.floor("ancillary stores in compute_ancillaries", n, 2)
+    gk = core.func("NaniteFitModel.get_anc_parm_keys")
+    txt = " ".join(norm(st) for st in gk.body)
+    ctx.check("ANCILLARY_COMMON" in txt and "self.parameter_anc_keys" in txt,
+              gk, "get_anc_parm_keys = common + declared keys",
+              "get_anc_parm_keys no longer lists the common keys plus the "
+              "declared parameter_anc_keys")
+
+
 RULES = [
     ("C18-R1", "registry written only by register/deregister; stored value "
      "validated; keyed by model_key", r1_registry_writers),
@@ -805,4 +875,6 @@ RULES = [
      "ancillary key lists", r4_ancillary_seeding),
     ("C18-R5", "_module_check raises only model errors and keeps its "
      "consistency tests", r5_check_raises_model_errors),
+    ("C18-R6", "computed ancillaries have exactly the announced keys",
+     r6_ancillary_keys_agree),
 ]
